@@ -55,7 +55,7 @@ def specs_head(tier):
     if tier == "thorough":
         cfgs += [dict(vectors="partial", h0_kind="sparse", options="tolerance"), dict(vectors="pairs-partial", hermitian=False, solver="custom"), dict(vectors="full", h0_kind="sympy"),
                  dict(vectors="partial", options="foreign"), dict(vectors="full", fully=True), dict(vectors="partial", direct=False, vec_kind="sparse")]
-    return [("contracts.bd_head", "unit_bd_head", dict(c, timeout_ms=t)) for c in cfgs] + [("contracts.bd_head", "unit_bd_tail", {"second_quantized": q, "timeout_ms": t}) for q in (False, True)] + [
+    return [("contracts.bd_head", "unit_bd_head", dict(c, timeout_ms=t)) for c in cfgs] + [("contracts.bd_head", "unit_bd_tail", {"second_quantized": q, "hermitian": h, "timeout_ms": t}) for q in (False, True) for h in (True, False)] + [
         ("contracts.bd_head", "unit_bd_middle", dict(c, timeout_ms=t)) for c in (
             dict(), dict(kind="scalar-operators"), dict(kind="matrix-operators"), dict(solver="custom"), dict(solver="custom", legacy=True), dict(solver="custom", legacy=True, hermitian=False), dict(solver="custom", legacy="varargs"), dict(solver="custom", legacy="varargs", hermitian=False),
             dict(implicit=True), dict(implicit=True, fully_last=True), dict(implicit=True, solver="custom"), dict(kind="matrix-operators", solver="custom"), dict(kind="scalar-operators", implicit=True))]
